@@ -127,6 +127,12 @@ def main(argv):
                     if r.get('output'):
                         print(r['output'])
         print('%d entries, %d bad' % (len(ids), bad))
+        # the scratch copies had their own build / fact directories under .work (one set per slot): remove them
+        import glob
+        for s_ in slots:
+            for d_ in glob.glob(os.path.join(VERIF, '.work', '*-st%d' % s_)) + glob.glob(os.path.join(VERIF, '.work', 'facts', '*-st%d' % s_)) + \
+                    glob.glob(os.path.join(VERIF, '.work', '*-st%d.lock' % s_)):
+                shutil.rmtree(d_, ignore_errors=True) if os.path.isdir(d_) else os.path.exists(d_) and os.remove(d_)
         return 1 if bad else 0
 
 
